@@ -528,6 +528,33 @@ struct KeysV {
     }
 };
 
+// One shared buffer in which every string of the list occurs (longest first, a string that already occurs is not
+// appended again); the strings are then handed out as windows of that buffer, so views alias and overlap.
+struct Corpus {
+    std::unique_ptr<Block> blk;
+    std::string text;
+    explicit Corpus(const std::vector<std::string>& strs) {
+        std::vector<const std::string*> order;
+        for (const auto& s : strs) order.push_back(&s);
+        std::stable_sort(order.begin(), order.end(), [](const std::string* a, const std::string* b) { return a->size() > b->size(); });
+        for (const std::string* s : order) {
+            if (text.find(*s) == std::string::npos) text += *s;
+        }
+        blk = std::make_unique<Block>(text);
+    }
+    std::string_view window(const std::string& s) const {
+        const size_t pos = text.find(s);
+        return std::string_view(blk->p + (pos == std::string::npos ? 0 : pos), s.size());
+    }
+};
+struct KeysW {
+    std::unique_ptr<Corpus> corpus;
+    std::vector<std::string_view> c;
+    ~KeysW() {
+        if (corpus) corpus->blk->scrub_bytes();
+    }
+};
+
 // Builds; the container and every key buffer is scrubbed and destroyed before returning (or throwing).
 template <class Trie>
 std::unique_ptr<Trie> build_trie(const std::vector<std::string>& keys, bool bin, char cont) {
@@ -541,6 +568,12 @@ std::unique_ptr<Trie> build_trie(const std::vector<std::string>& keys, bool bin,
         KeysC k;
         k.c.reserve(keys.size());
         for (const auto& s : keys) k.c.emplace_back(s.begin(), s.end());
+        t = std::make_unique<Trie>(k.c, bin);
+    } else if (cont == 'w') {
+        KeysW k;
+        k.corpus = std::make_unique<Corpus>(keys);
+        k.c.reserve(keys.size());
+        for (const auto& s : keys) k.c.push_back(k.corpus->window(s));
         t = std::make_unique<Trie>(k.c, bin);
     } else {
         KeysV k;
@@ -678,7 +711,7 @@ struct TrieSession {
         int kind = 0;  // 0 none, 1 prefix, 2 predictive
         prefix_it pit;
         pred_it rit;
-        std::unique_ptr<Block> blk;
+        std::shared_ptr<Block> blk;      // shared with the copies of the iterator (IC)
         void reset() {
             kind = 0;
             pit = prefix_it();
@@ -777,16 +810,30 @@ struct TrieSession {
         }
         const std::string& fn = tk[1];
         const std::string& what = tk[2];
-        if ((fn != "load" && fn != "save" && fn != "tid") || (what != "missing" && what != "noparent" && what != "dir")) {
+        if ((fn != "load" && fn != "save" && fn != "tid") || (what != "missing" && what != "noparent" && what != "dir" && what != "longname" && what != "symloop" && what != "notdir" && what != "empty")) {
             bad_arg(out, line);
             return;
         }
         std::string path;
         std::string dir_made;
+        std::string notdir_file;
         if (what == "missing") {
             path = tmp_path("_missing");
         } else if (what == "noparent") {
             path = tmp_path("_nodir") + "/file";
+        } else if (what == "longname") {          // a path component longer than NAME_MAX: stat/open fail with ENAMETOOLONG
+            path = tmp_path("_") + std::string(300, 'x');
+        } else if (what == "symloop") {           // a symbolic link to itself: ELOOP
+            path = tmp_path("_loop");
+            if (::symlink(path.c_str(), path.c_str()) != 0) path += "/nowhere";
+        } else if (what == "notdir") {            // a regular file used as a directory: ENOTDIR
+            std::string f = tmp_path("_file");
+            { std::ofstream mk(f, std::ios::binary); mk << "x"; }
+            dir_made.clear();
+            path = f + "/inside";
+            notdir_file = f;
+        } else if (what == "empty") {
+            path = "";
         } else {
             path = tmp_path("_dir");
             if (::mkdir(path.c_str(), 0700) == 0) dir_made = path;
@@ -804,9 +851,10 @@ struct TrieSession {
         });
         if (!dir_made.empty()) {
             ::rmdir(dir_made.c_str());
-        } else {
+        } else if (!path.empty()) {
             ::unlink(path.c_str());
         }
+        if (!notdir_file.empty()) ::unlink(notdir_file.c_str());
     }
 
     void op(const std::vector<std::string>& tk, const std::string& line) {
@@ -834,7 +882,7 @@ struct TrieSession {
             guarded(out, pref ? "ip" : "ir", [&] {
                 Slot& s = slots[k];
                 s.reset();
-                s.blk = std::make_unique<Block>(bytes);
+                s.blk = std::make_shared<Block>(bytes);
                 if (pref) {
                     s.pit = cur->make_prefix_iterator(s.blk->sv());
                     s.kind = 1;
@@ -863,6 +911,24 @@ struct TrieSession {
                     s.kind = 2;
                 }
                 out(std::string(name) + " ok");
+            });
+        } else if (o == "IC" || o == "IM") {   // slot <dst> becomes a copy of / is move-constructed from slot <src>
+            size_t a = 0, b = 0;
+            if (tk.size() != 3 || !get_slot(tk[1], a) || !get_slot(tk[2], b) || a == b) return (void)bad_arg(out, line);
+            if (slots[a].kind == 0) return out("error empty-slot " + line);
+            guarded(out, o == "IC" ? "ic" : "im", [&] {
+                Slot& src = slots[a];
+                Slot& dst = slots[b];
+                dst.reset();
+                dst.blk = src.blk;
+                dst.kind = src.kind;
+                if (o == "IC") {
+                    if (src.kind == 1) { prefix_it cp(src.pit); dst.pit = cp; } else { pred_it cp(src.rit); dst.rit = cp; }
+                } else {
+                    if (src.kind == 1) { prefix_it mv(std::move(src.pit)); dst.pit = std::move(mv); } else { pred_it mv(std::move(src.rit)); dst.rit = std::move(mv); }
+                    src.reset();      // the moved-from iterator is not used again
+                }
+                out(o == "IC" ? "ic ok" : "im ok");
             });
         } else if (o == "NI") {   // advance WITHOUT reading the keyword (only the id): `ni 1 <id>` / `ni 0`
             size_t k = 0;
@@ -1538,6 +1604,7 @@ void run_tail_case(const Case& c, const Out& out) {
         return;
     }
     auto tb = std::make_unique<xcdat::tail_vector::builder>();
+    std::unique_ptr<Corpus> corpus;      // op WIN: every suffix is a window of one shared buffer
     std::vector<std::unique_ptr<Block>> blocks;
     std::vector<std::uint64_t> nposs;
     std::unique_ptr<xcdat::tail_vector> tv;
@@ -1554,9 +1621,21 @@ void run_tail_case(const Case& c, const Out& out) {
             if (completed) { out("error already-built " + line); continue; }
             nposs.push_back(x);
             guarded(out, "s", [&] {
-                blocks.push_back(std::make_unique<Block>(bytes));
-                tb->set_suffix(blocks.back()->sv(), x);
+                if (corpus) {
+                    tb->set_suffix(corpus->window(bytes), x);
+                } else {
+                    blocks.push_back(std::make_unique<Block>(bytes));
+                    tb->set_suffix(blocks.back()->sv(), x);
+                }
             });
+        } else if (o == "WIN") {     // silent; must precede the S lines
+            std::vector<std::string> all;
+            for (const auto& l2 : c.body) {
+                auto t2 = split_ws(l2);
+                std::string b2;
+                if (t2.size() == 3 && t2[0] == "S" && parse_hex(t2[1], b2)) all.push_back(b2);
+            }
+            corpus = std::make_unique<Corpus>(all);
         } else if (o == "BUILD") {
             if (tk.size() != 1) { bad_arg(out, line); continue; }
             if (completed) { out("error already-built " + line); continue; }
@@ -1568,11 +1647,15 @@ void run_tail_case(const Case& c, const Out& out) {
                 } catch (...) {
                     for (auto& b : blocks) b->scrub_bytes();
                     blocks.clear();
+                    if (corpus) corpus->blk->scrub_bytes();
+                    corpus.reset();
                     throw;
                 }
                 // The suffix views only have to stay valid until complete() has run.
                 for (auto& b : blocks) b->scrub_bytes();
                 blocks.clear();
+                if (corpus) corpus->blk->scrub_bytes();
+                corpus.reset();
                 tv = std::make_unique<xcdat::tail_vector>(std::move(*tb));
                 tb.reset();
                 out("tail " + component_hex(*tv));
@@ -1654,7 +1737,7 @@ void dispatch_case(const Case& c, const Out& out) {
         std::uint64_t v = 0;
         bool bin = false;
         if (c.args.size() != 3 || !parse_u64(c.args[0], v) || !parse_bit(c.args[1], bin) || c.args[2].size() != 1 ||
-            (c.args[2][0] != 's' && c.args[2][0] != 'v' && c.args[2][0] != 'c')) {
+            (c.args[2][0] != 's' && c.args[2][0] != 'v' && c.args[2][0] != 'c' && c.args[2][0] != 'w')) {
             out("error bad-case-args");
             return;
         }
